@@ -17,6 +17,7 @@ pub enum Kind {
     Fail,
     Stream0,
     Stream2,
+    StreamRaw2,
     GenAdd,
     GenNop,
     GenAddOverflow,
@@ -40,6 +41,7 @@ pub const ALL_KINDS: &[Kind] = &[
     Kind::Fail,
     Kind::Stream0,
     Kind::Stream2,
+    Kind::StreamRaw2,
     Kind::GenAdd,
     Kind::GenNop,
     Kind::GenAddOverflow,
@@ -108,6 +110,7 @@ impl Req {
             Kind::Echo => "org.verif.t.Echo".into(),
             Kind::Fail => "org.verif.t.Fail".into(),
             Kind::Stream0 | Kind::Stream2 => "org.verif.t.Stream".into(),
+            Kind::StreamRaw2 => "org.verif.t.StreamRaw".into(),
             Kind::GenAdd | Kind::GenAddOverflow | Kind::GenAddBadType | Kind::GenAddMissing | Kind::GenAddNoParams => {
                 "org.verif.gen.Add".into()
             }
@@ -130,7 +133,7 @@ impl Req {
             }
             Kind::Echo | Kind::Fail => Some(json!({ "token": t })),
             Kind::Stream0 => Some(json!({"n": 0, "token": t})),
-            Kind::Stream2 => Some(json!({"n": 2, "token": t})),
+            Kind::Stream2 | Kind::StreamRaw2 => Some(json!({"n": 2, "token": t})),
             Kind::GenAdd => Some(json!({"a": 40, "b": 2, "token": t})),
             Kind::GenAddOverflow => Some(json!({"a": i64::MAX, "b": 1, "token": t})),
             Kind::GenAddBadType => Some(json!({"a": "forty", "b": 2, "token": t})),
@@ -185,6 +188,8 @@ pub enum FrameSpec {
     GetInfo,
     ErrorNamed(&'static str),
     AnyError,
+    /// any frame that carries this (unique) token
+    Mentions(String),
 }
 
 #[derive(Clone, Debug)]
@@ -225,6 +230,23 @@ pub fn expect(r: &Req) -> Expect {
                 Expect { frames: f, may_close_after: false }
             } else {
                 one(err("org.verif.t.NeedMore", json!({ "token": t })))
+            }
+        }
+        Kind::StreamRaw2 => {
+            // a streaming handler that does not look at the `more` flag itself: with `more` it
+            // streams; without, its first reply is refused by the library (continues needs
+            // more), the handler gives up and the connection is closed with the request
+            // unanswered. The model is lenient on purpose: ONE final frame for this request
+            // would still be "exactly one final reply"; a second one cannot be attributed.
+            if r.flags.more {
+                let mut f = Vec::new();
+                for i in 0..2 {
+                    f.push(FrameSpec::Exact(json!({"continues": true, "parameters": {"i": i, "token": t}})));
+                }
+                f.push(FrameSpec::Exact(json!({"parameters": {"i": 2, "token": t}})));
+                Expect { frames: f, may_close_after: false }
+            } else {
+                Expect { frames: vec![FrameSpec::Mentions(t.clone())], may_close_after: true }
             }
         }
         Kind::GenAdd => one(FrameSpec::Exact(json!({"parameters": {"sum": 42, "token": t}}))),
@@ -312,6 +334,13 @@ pub fn frame_matches(frame: &Value, spec: &FrameSpec, registered: &[&str]) -> Re
                 Ok(())
             } else {
                 Err(format!("expected error {} got {}", n, f))
+            }
+        }
+        FrameSpec::Mentions(tok) => {
+            if f.to_string().contains(tok.as_str()) {
+                Ok(())
+            } else {
+                Err(format!("frame {} does not carry the request's token {:?}", f, tok))
             }
         }
         FrameSpec::AnyError => {
